@@ -1,4 +1,6 @@
-CONSTANT Small = TRUE
+CONSTANTS
+  Small = TRUE
+  WithPid = FALSE
 SPECIFICATION Spec
 INVARIANT TargetIndependence
 INVARIANT OverrideEquivalence
